@@ -23,6 +23,7 @@ func extra(repo, out string, root, helpers *pkgFiles) {
 		genCacheFacts(out, root)
 		genMergeFacts(out, root)
 		genParseFacts(repo, out, root)
+		genFmtLists(repo, out)
 		if helpers != nil {
 			genPurity(out, root, helpers)
 			genLocks(out, root, helpers)
@@ -621,4 +622,46 @@ func genParseFacts(repo, out string, root *pkgFiles) {
 	rep.Facts["programParams"] = list(params)
 	rep.Facts["programCacheKeys"] = list(keys)
 	rep.Facts["programCompileReads"] = list(reads)
+}
+
+// genFmtLists: the three element lists the formatter's tree walk decides by (void, inline, phrasing containers), as lower-case tag names.
+func genFmtLists(repo, out string) {
+	var sb strings.Builder
+	sb.WriteString("namespace Vuego.Generated\n\n")
+	defer func() {
+		sb.WriteString("\nend Vuego.Generated\n")
+		writeFile(out, "FmtLists.lean", sb.String())
+	}()
+	fp, err := parseDir(filepath.Join(repo, "formatter"))
+	if err != nil {
+		fail("parse formatter", err)
+		return
+	}
+	for _, it := range [][2]string{{"isVoidElement", "fmtVoid"}, {"isInlineAtom", "fmtInline"}, {"isPhrasingContainer", "fmtPhrasing"}} {
+		var names []string
+		if fd := fp.fn(it[0]); fd != nil {
+			ast.Inspect(fd.Body, func(n ast.Node) bool {
+				cl, ok := n.(*ast.CompositeLit)
+				if !ok {
+					return true
+				}
+				for _, e := range cl.Elts {
+					if sel, ok := e.(*ast.SelectorExpr); ok {
+						if id, ok := sel.X.(*ast.Ident); ok && id.Name == "atom" {
+							names = append(names, strings.ToLower(sel.Sel.Name))
+						}
+					}
+				}
+				return false
+			})
+		} else {
+			fail("formatter", fmt.Errorf("formatter.%s not found", it[0]))
+		}
+		var q []string
+		for _, n := range names {
+			q = append(q, leanString(n))
+		}
+		fmt.Fprintf(&sb, "/-- the atoms listed in formatter.%s -/\ndef %s : List String := [%s]\n", it[0], it[1], strings.Join(q, ", "))
+		rep.Facts[it[1]] = strings.Join(names, ",")
+	}
 }
